@@ -179,6 +179,17 @@ impl Ctx {
     /// the run depend on the machine (config files, HOME, tty, locale, thread
     /// count defaults) is pinned.
     pub fn run(&self, cwd: &Path, spec: &RunSpec, timeout_s: u64) -> RunOut {
+        // A run that exceeds its wall-clock cap is executed once more, with a
+        // longer cap, before it counts as "did not end": the machine may
+        // simply be busy, and a real hang exceeds any cap.
+        let first = self.run_once(cwd, spec, timeout_s);
+        if !first.timed_out {
+            return first;
+        }
+        self.run_once(cwd, spec, timeout_s * 3)
+    }
+
+    fn run_once(&self, cwd: &Path, spec: &RunSpec, timeout_s: u64) -> RunOut {
         let id = self.n.get();
         self.n.set(id + 1);
         let shim_out = self.scratch.path().join(format!("shim-{id}.out"));
